@@ -35,6 +35,10 @@ impl Session {
     }
 
     pub fn abort_transaction(&mut self) -> QueryRunnerResult<()> {
+        // Nothing to roll back (and nothing to log) once the transaction has been committed or aborted.
+        if !self.ctx.is_open() {
+            return Ok(());
+        }
         self.logger.log_abort()?;
         self.ctx.abort_transaction()?;
         self.logger.log_end()?;
